@@ -128,6 +128,33 @@ Proof.
 Qed.
 Print Assumptions C30_redirect_same_rules.
 
+(* 9. Lifetime of a client: for ANY list of dial requests served by one dial context (same host again
+      on another port, a refused host retried, answers that change between attempts, redirect hops ...),
+      every single request gets the per-dial guarantee of theorems 3/4/6 -- judged against THAT request's
+      resolver answer.  This rests on the dial context being stateless (the history is the request-wise
+      map of the one-dial function); that the real closures are stateless is what the harness's sequence
+      streams check (one dial context / client instance, 2-4 dials, each compared with the model). *)
+Definition wf_req (q : dialReq) : Prop :=
+  match rqAnswer q with Some ips => wf_ips ips | None => True end.
+
+Theorem C30_dial_history_validated : forall allowed reqs,
+  Forall wf_req reqs ->
+  (forall q o, In (q, o) (combine reqs (revocationDialHistory allowed reqs)) ->
+     per_dial_guarantee (allowedLookup allowed (normalizeRevocationHost (rqHost q))) q o) /\
+  (forall q o, In (q, o) (combine reqs (imageBoxDialHistory reqs)) -> per_dial_guarantee false q o) /\
+  length (revocationDialHistory allowed reqs) = length reqs /\
+  length (imageBoxDialHistory reqs) = length reqs.
+Proof.
+  intros allowed reqs W.
+  assert (HB : Forall answer_bytes reqs).
+  { rewrite Forall_forall in *. intros q Hq. specialize (W q Hq). unfold wf_req, answer_bytes in *.
+    destruct (rqAnswer q); [apply wf_bytes; exact W|exact I]. }
+  split; [apply revocationDialHistory_sound; exact HB|].
+  split; [apply imageBoxDialHistory_sound; exact HB|].
+  unfold revocationDialHistory, imageBoxDialHistory. rewrite !map_length. split; reflexivity.
+Qed.
+Print Assumptions C30_dial_history_validated.
+
 (* ---- non-vacuity: hypotheses satisfiable, both outcomes occur *)
 Definition pub1 : ip := [93;184;216;34].
 Definition pub6 : ip := [0x20;0x01;0x0d;0xb8;0;0;0;0;0;0;0;0;0;0;0;1].
@@ -145,6 +172,17 @@ Example C30_nonvacuous :
   revocationRedirect 9 (Some (mkURL s_http false host_a None)) = true /\
   revocationRedirect 10 (Some (mkURL s_http false host_a None)) = false.
 Proof. split; [repeat constructor|vm_compute; repeat split; congruence]. Qed.
+
+(* a refused host retried, then the same host with a clean answer, then again with a poisoned one *)
+Example C30_history_nonvacuous :
+  let reqs := [mkReq host_a (Some [pub1; IPv4 10 0 0 1]) [true];
+               mkReq host_a (Some [pub1]) [true];
+               mkReq host_a (Some [IPv4 127 0 0 1; pub1]) [true; true];
+               mkReq host_a None []] in
+  Forall wf_req reqs /\
+  revocationDialHistory [] reqs = [DRejected; DDialled [pub1] true; DRejected; DResolveErr] /\
+  imageBoxDialHistory reqs = [DRejected; DDialled [pub1] true; DRejected; DResolveErr].
+Proof. split; [repeat constructor|vm_compute; split; reflexivity]. Qed.
 
 (* ---- observations (not part of the property's five classes; recorded so that a reader sees what
    the code does for neighbouring special-purpose ranges): none of these is blocked by pdfcpu *)
